@@ -7,11 +7,19 @@ namespace Sonic.Proofs.Parse
 open Sonic.Gen Sonic.Spec Sonic.Model.Parse
 open Sonic.Proofs.StringDec (get_of_drop drop_mono)
 
+/-- the root value is a number at a doomed position (its token is followed by `.` or a digit): the machine has either
+    finished the root with *some* value — the trailing-character check of `Parser::Parse` will reject — or failed -/
+def RootDoomed (bs pad : List Nat) (r : Except Fault PState) : Prop :=
+  (∃ s' node next, r = .ok s' ∧ RootDone bs pad s' node next ∧ Doomed bs next) ∨
+  (∃ s', r = .ok s' ∧ ErrFinal bs s')
+
 /-- the goal for a scalar root value -/
 def RootGoal (W : Nat) (bs pad : List Nat) (s : PState) (res : Except Json.Reject (JVal × Nat)) : Prop :=
   match res with
-  | .ok (v, next) => ∃ s' node, parsePrimitives W s = .ok s' ∧ RootDone bs pad s' node next ∧ GoodAt s' node v
-  | .error _ => ∃ s', parsePrimitives W s = .ok s' ∧ ErrFinal bs s'
+  | .ok (v, next) =>
+      (∃ s' node, parsePrimitives W s = .ok s' ∧ RootDone bs pad s' node next ∧ GoodAt s' node v) ∨
+      (Doomed bs next ∧ RootDoomed bs pad (parsePrimitives W s))
+  | .error _ => (∃ s', parsePrimitives W s = .ok s' ∧ ErrFinal bs s') ∨ RootDoomed bs pad (parsePrimitives W s)
 
 theorem root_lt {bs pad : List Nat} {s : PState} (h : MInv bs pad .val s []) : s.sax.np < s.sax.cap := by
   have h1 := h.st.1.np
@@ -81,12 +89,12 @@ theorem root_lit3 {W : Nat} {bs pad : List Nat} {s : PState} {p c : Nat}
       have := (matchLit_iff bs p [a, b, c3, d]).mp hm 3 (by simp)
       simp only [List.getElem?_cons_succ, List.getElem?_cons_zero] at this
       exact (List.getElem?_eq_some_iff.mp this).1
-    exact ⟨{ s with pos := s.pos + 3, sax := pushed s.sax n }, n, hpp,
+    exact Or.inl ⟨{ s with pos := s.pos + 3, sax := pushed s.sax n }, n, hpp,
       rootDone_of hat.inv hn (hat.inv.b.congr rfl rfl rfl (by simp only; omega)) hat.inv.err
         (by simp only [hat.pos]) (by omega) rfl, fun buf' _ => hv buf'⟩
   · rw [if_neg hm]
     rw [if_neg (fun h => hm (hagree.mp h))] at hpp
-    exact ⟨{ s with err := kParseErrorInvalidChar }, hpp, hat.inv.errFull rfl rfl rfl rfl⟩
+    exact Or.inl ⟨{ s with err := kParseErrorInvalidChar }, hpp, hat.inv.errFull rfl rfl rfl rfl⟩
 
 theorem root_false {W : Nat} {bs pad : List Nat} {s : PState} {p c : Nat}
     (hat : At bs pad .val s [] p c) (hc : c = 0x66) :
@@ -112,15 +120,39 @@ theorem root_false {W : Nat} {bs pad : List Nat} {s : PState} {p c : Nat}
       simp only [List.getElem?_cons_succ, List.getElem?_cons_zero] at this
       exact (List.getElem?_eq_some_iff.mp this).1
     have hpos := hat.pos
-    exact ⟨{ s with pos := s.pos + 4, sax := pushed s.sax (.bool false) }, .bool false, hpp,
+    exact Or.inl ⟨{ s with pos := s.pos + 4, sax := pushed s.sax (.bool false) }, .bool false, hpp,
       rootDone_of hat.inv rfl (hat.inv.b.congr rfl rfl rfl (by simp only; omega)) hat.inv.err
         (by simp only [hat.pos]) (by omega) rfl, fun buf' _ => rfl⟩
   · rw [if_neg hm]
     rw [if_neg (fun h => hm (hspec.mpr (hagree.mp h)))] at hpp
-    exact ⟨{ s with err := kParseErrorInvalidChar }, hpp, hat.inv.errFull rfl rfl rfl rfl⟩
+    exact Or.inl ⟨{ s with err := kParseErrorInvalidChar }, hpp, hat.inv.errFull rfl rfl rfl rfl⟩
+
+theorem pp_num_eq {W : Nat} {bs pad : List Nat} {s : PState} {p c : Nat} (hat : At bs pad .val s [] p c)
+    (hc : isNumStart c = true) :
+    parsePrimitives W s =
+      (match Sonic.Model.Number.parseNumber s.buf bs.length p with
+        | .ok v next _ =>
+          match s.sax.scalar (numNode v) with
+          | .error e => .error e
+          | .ok (sax, true) => .ok { s with pos := next, sax := sax }
+          | .ok (sax, false) => .ok { s with pos := next, sax := sax, err := kParseErrorInvalidChar }
+        | .err code p =>
+          if code = Sonic.Model.Number.errInfinity then
+            match s.sax.scalar (.dbl Sonic.Model.Number.infBits) with
+            | .error e => .error e
+            | .ok (sax, true) => .ok { s with pos := p, sax := sax, err := code }
+            | .ok (sax, false) => .ok { s with pos := p, sax := sax, err := kParseErrorInvalidChar }
+          else if code = kParseErrorInvalidChar then .ok { s with pos := p, err := code }
+          else .error .number : Except Fault PState) := by
+  have hpp : parsePrimitives W s = parseNum s := by rw [pp_eq hat, if_pos hc]
+  unfold parseNum at hpp
+  have hcall : Sonic.Model.Number.parseNumber s.buf s.len (s.pos - 1) =
+      Sonic.Model.Number.parseNumber s.buf bs.length p := by rw [hat.pos_sub, hat.inv.b.len]
+  rw [hcall] at hpp
+  exact hpp
 
 theorem root_num {W : Nat} {bs pad : List Nat} {s : PState} {p c : Nat}
-    (ctx : Ctx W bs pad) (hnum : NumberCorrectOn bs) (hat : At bs pad .val s [] p c) (hc : isNumStart c = true) :
+    (ctx : Ctx W bs pad) (hnum : NumberOK bs) (hat : At bs pad .val s [] p c) (hc : isNumStart c = true) :
     RootGoal W bs pad s
       (match Number.scanNumber bs p with
        | .ok v next => .ok (.num v, next)
@@ -128,13 +160,46 @@ theorem root_num {W : Nat} {bs pad : List Nat} {s : PState} {p c : Nat}
        | .malformed => .error .malformed) := by
   obtain ⟨h1, h2, h3, h4, h5, h6, h7⟩ := isNumStart_ne hc
   obtain ⟨hp, hbp⟩ := hat.lt_of_ne h3
-  have hpp : parsePrimitives W s = parseNum s := by rw [pp_eq hat, if_pos hc]
-  obtain ⟨r, hagr, hr⟩ := hnum p c hp hbp hc
+  have hpp := pp_num_eq (W := W) hat hc
+  obtain ⟨r, hcase, hr⟩ := hnum p c hp hbp hc
   have hr' := hr pad s.buf ctx.hlen ctx.hpad ⟨hat.inv.b.blen, hat.suf⟩
-  unfold parseNum at hpp
-  have hcall : Sonic.Model.Number.parseNumber s.buf s.len (s.pos - 1) =
-      Sonic.Model.Number.parseNumber s.buf bs.length p := by rw [hat.pos_sub, hat.inv.b.len]
-  rw [hcall] at hpp
+  rcases hcase with hagr | ⟨t, ht, htpos, hdoom, hout⟩
+  case inr =>
+    -- a doomed position: a root done with some value, or an error state; the reference rejects at the next byte
+    have hdl := hdoom.lt
+    have hmach : RootDoomed bs pad (parsePrimitives W s) := by
+      cases hpn : Sonic.Model.Number.parseNumber s.buf bs.length p with
+      | ok v' next' path =>
+        rw [hpn] at hpp hr'
+        simp only at hpp
+        simp only [numOut] at hr'
+        subst hr'
+        have hnx : next' = p + t.len := hout
+        subst hnx
+        have hnv : (numNode v').allocs = 0 := by cases v' <;> rfl
+        rw [(root_pushed hat.inv (numNode v') hnv).1] at hpp
+        exact Or.inl ⟨{ s with pos := p + t.len, sax := pushed s.sax (numNode v') }, numNode v', p + t.len, hpp,
+          rootDone_of hat.inv hnv (hat.inv.b.congr rfl rfl rfl (by simp only [hat.pos]; omega))
+            hat.inv.err rfl (by omega) rfl, hdoom⟩
+      | err code pos =>
+        rw [hpn] at hpp hr'
+        simp only at hpp
+        simp only [numOut] at hr'
+        subst hr'
+        rcases hout with hcd | hcd
+        · subst hcd
+          simp only [if_true] at hpp
+          rw [(root_pushed hat.inv (.dbl Sonic.Model.Number.infBits) rfl).1] at hpp
+          exact Or.inr ⟨_, hpp,
+            errFinal_root hat.inv (.dbl Sonic.Model.Number.infBits) rfl (Or.inr (Or.inl rfl)) rfl rfl rfl⟩
+        · subst hcd
+          exact Or.inr ⟨{ s with pos := pos, err := 2 }, hpp, hat.inv.errFull rfl rfl rfl rfl⟩
+    unfold Number.scanNumber
+    rw [ht]
+    simp only
+    cases t.value with
+    | some v => exact Or.inr ⟨hdoom, hmach⟩
+    | none => exact Or.inr hmach
   cases hpn : Sonic.Model.Number.parseNumber s.buf bs.length p with
   | ok v' next' path =>
     rw [hpn] at hpp hr'
@@ -147,7 +212,7 @@ theorem root_num {W : Nat} {bs pad : List Nat} {s : PState} {p c : Nat}
       obtain ⟨e1, e2, e3, e4⟩ := hagr
       subst e1; subst e2
       rw [(root_pushed hat.inv (numNode v) (by cases v <;> rfl)).1] at hpp
-      exact ⟨{ s with pos := next, sax := pushed s.sax (numNode v) }, numNode v, hpp,
+      exact Or.inl ⟨{ s with pos := next, sax := pushed s.sax (numNode v) }, numNode v, hpp,
         rootDone_of hat.inv (by cases v <;> rfl) (hat.inv.b.congr rfl rfl rfl (by simp only [hat.pos]; omega))
           hat.inv.err rfl e4 rfl, fun buf' _ => by cases v <;> rfl⟩
     | infinity next => rw [hsc] at hagr; exact hagr.elim
@@ -172,10 +237,10 @@ theorem root_num {W : Nat} {bs pad : List Nat} {s : PState} {p c : Nat}
     · subst hcd
       simp only [Sonic.Model.Number.errInfinity, kParseErrorInfinity, if_true] at hpp
       rw [(root_pushed hat.inv (.dbl Sonic.Model.Number.infBits) rfl).1] at hpp
-      exact ⟨{ s with pos := pos, sax := pushed s.sax (.dbl Sonic.Model.Number.infBits), err := 3 }, hpp,
+      exact Or.inl ⟨{ s with pos := pos, sax := pushed s.sax (.dbl Sonic.Model.Number.infBits), err := 3 }, hpp,
         errFinal_root hat.inv (.dbl Sonic.Model.Number.infBits) rfl (Or.inr (Or.inl rfl)) rfl rfl rfl⟩
     · subst hcd
-      exact ⟨{ s with pos := pos, err := 2 }, hpp, hat.inv.errFull rfl rfl rfl rfl⟩
+      exact Or.inl ⟨{ s with pos := pos, err := 2 }, hpp, hat.inv.errFull rfl rfl rfl rfl⟩
 
 theorem root_str {W : Nat} {bs pad : List Nat} {s : PState} {p c : Nat}
     (ctx : Ctx W bs pad) (hat : At bs pad .val s [] p c) (hc : c = 0x22) :
@@ -199,8 +264,8 @@ theorem root_str {W : Nat} {bs pad : List Nat} {s : PState} {p c : Nat}
     rw [hps] at hpp
     simp only at hpp
     rw [if_neg (by simp only [hat.inv.b.len]; omega)] at hpp
-    refine ⟨_, .str s.pos n, hpp, rootDone_of hat.inv rfl (hB.congr rfl rfl rfl (Nat.le_refl _)) hat.inv.err rfl hin rfl,
-      ?_⟩
+    refine Or.inl ⟨_, .str s.pos n, hpp,
+      rootDone_of hat.inv rfl (hB.congr rfl rfl rfl (Nat.le_refl _)) hat.inv.err rfl hin rfl, ?_⟩
     intro buf' ha
     simp only [Node.toJVal]
     rw [slice_agree ha (by simp only; omega)]
@@ -210,16 +275,16 @@ theorem root_str {W : Nat} {bs pad : List Nat} {s : PState} {p c : Nat}
     rw [hps] at hpp
     simp only at hpp
     rw [if_pos (by simp only [hat.inv.b.len]; omega)] at hpp
-    exact ⟨_, hpp, errFinal_root hat.inv (.str s.pos n) rfl (Or.inl rfl) rfl hlen rfl⟩
+    exact Or.inl ⟨_, hpp, errFinal_root hat.inv (.str s.pos n) rfl (Or.inl rfl) rfl hlen rfl⟩
   · rw [hdec]
     rw [(root_pushed hat.inv (.str s.pos 0) rfl).1] at hps
     rw [hps] at hpp
     simp only at hpp
     by_cases hgt : p' > s.len
     · rw [if_pos hgt] at hpp
-      exact ⟨_, hpp, errFinal_root hat.inv (.str s.pos 0) rfl (Or.inl rfl) rfl rfl rfl⟩
+      exact Or.inl ⟨_, hpp, errFinal_root hat.inv (.str s.pos 0) rfl (Or.inl rfl) rfl rfl rfl⟩
     · rw [if_neg hgt] at hpp
-      exact ⟨_, hpp, errFinal_root hat.inv (.str s.pos 0) rfl (by simp only; omega) rfl rfl rfl⟩
+      exact Or.inl ⟨_, hpp, errFinal_root hat.inv (.str s.pos 0) rfl (by simp only; omega) rfl rfl rfl⟩
 
 /-- the state in which `Parser::Parse` calls `parseImpl` -/
 def initState (bs pad : List Nat) (raw : List (Option Node)) : PState :=
@@ -234,8 +299,10 @@ theorem init_inv {W : Nat} {bs pad : List Nat} (ctx : Ctx W bs pad) {raw : List 
 /-- what `parseImpl` does, against the reference reader at the first non-space byte -/
 def ImplGoal (W : Nat) (bs pad : List Nat) (s : PState) (res : Except Json.Reject (JVal × Nat)) : Prop :=
   match res with
-  | .ok (v, next) => ∃ s' node, parseImpl W s = .ok s' ∧ RootDone bs pad s' node next ∧ GoodAt s' node v
-  | .error _ => ∃ s', parseImpl W s = .ok s' ∧ ErrFinal bs s'
+  | .ok (v, next) =>
+      (∃ s' node, parseImpl W s = .ok s' ∧ RootDone bs pad s' node next ∧ GoodAt s' node v) ∨
+      (Doomed bs next ∧ RootDoomed bs pad (parseImpl W s))
+  | .error _ => (∃ s', parseImpl W s = .ok s' ∧ ErrFinal bs s') ∨ RootDoomed bs pad (parseImpl W s)
 
 theorem rootGoal_impl {W : Nat} {bs pad : List Nat} {s s1 : PState} {c : Nat}
     (hsk : skip s = .ok (c, s1)) (h1 : c ≠ 0x5B) (h2 : c ≠ 0x7B) {res : Except Json.Reject (JVal × Nat)}
@@ -257,7 +324,7 @@ theorem landed_nil {bs pad : List Nat} {e : Nat} {cfg : PState × Option Label} 
   subst h1
   exact ⟨rfl, h2⟩
 
-theorem parseImpl_spec {W : Nat} {bs pad : List Nat} (ctx : Ctx W bs pad) (hnum : NumberCorrectOn bs)
+theorem parseImpl_spec {W : Nat} {bs pad : List Nat} (ctx : Ctx W bs pad) (hnum : NumberOK bs)
     {raw : List (Option Node)} (hraw : raw.length = setUpCap bs.length) :
     ImplGoal W bs pad (initState bs pad raw)
       (Json.parseValue bs (2 * bs.length + 2) (Json.skipWs bs bs.length 0)) := by
@@ -274,7 +341,7 @@ theorem parseImpl_spec {W : Nat} {bs pad : List Nat} (ctx : Ctx W bs pad) (hnum 
     rw [show 2 * bs.length + 2 = (2 * bs.length + 1) + 1 by omega, Json.parseValue, hbn]
     subst hcx
     refine rootGoal_impl hsk (by decide) (by decide) ?_
-    refine ⟨{ s1 with err := kParseErrorInvalidChar }, ?_, hat.inv.errFull rfl rfl rfl rfl⟩
+    refine Or.inl ⟨{ s1 with err := kParseErrorInvalidChar }, ?_, hat.inv.errFull rfl rfl rfl rfl⟩
     rw [pp_eq hat]; rfl
   rw [show 2 * bs.length + 2 = (2 * bs.length + 1) + 1 by omega, Json.parseValue, hbp]
   simp only
@@ -297,7 +364,7 @@ theorem parseImpl_spec {W : Nat} {bs pad : List Nat} (ctx : Ctx W bs pad) (hnum 
       rcases hcase with ⟨hc1, hq1L, cfg, hop, hland, hpres2⟩ | ⟨hc1, s2, hop, hat2, hpres2, hnp, hcap⟩
       · rw [if_pos (htest.mpr hc1)]
         obtain ⟨hcfg, hdone⟩ := landed_nil hland
-        refine ⟨cfg.1, .arr [], ?_, hdone, GoodAt.arr (GoodList.nil _)⟩
+        refine Or.inl ⟨cfg.1, .arr [], ?_, hdone, GoodAt.arr (GoodList.nil _)⟩
         rw [hpi cfg hop, hcfg]
         rfl
       · rw [if_neg (fun h => hc1 (htest.mp h))]
@@ -309,7 +376,7 @@ theorem parseImpl_spec {W : Nat} {bs pad : List Nat} (ctx : Ctx W bs pad) (hnum 
           obtain ⟨k, s', ⟨cfg0, hcfg0, hreach⟩, hfin, hk⟩ := hE
           injection hcfg0 with hcfg0
           subst hcfg0
-          exact ⟨s', by rw [hpi _ hop]; exact hreach.run _ (by omega), hfin⟩
+          exact Or.inl ⟨s', by rw [hpi _ hop]; exact hreach.run _ (by omega), hfin⟩
         | ok x =>
           obtain ⟨xs, e⟩ := x
           rw [hres] at hE
@@ -317,7 +384,7 @@ theorem parseImpl_spec {W : Nat} {bs pad : List Nat} (ctx : Ctx W bs pad) (hnum 
           rcases hE with ⟨k, cfg, node, hreach, hland, hgood, hpres3, hk, he⟩ | ⟨_, hncap⟩
           · obtain ⟨hcfg, hdone⟩ := landed_nil hland
             rw [hcfg] at hreach
-            refine ⟨cfg.1, node, by rw [hpi _ hop]; exact hreach.run _ (by omega), hdone, ?_⟩
+            refine Or.inl ⟨cfg.1, node, by rw [hpi _ hop]; exact hreach.run _ (by omega), hdone, ?_⟩
             simpa using hgood
           · refine absurd ?_ hncap
             have hnp0 := hat.inv.st.1.np
@@ -340,7 +407,7 @@ theorem parseImpl_spec {W : Nat} {bs pad : List Nat} (ctx : Ctx W bs pad) (hnum 
       rcases hcase with ⟨hc1, hq1L, cfg, hop, hland, hpres2⟩ | ⟨hc1, s2, hop, hat2, hpres2, hnp, hcap⟩
       · rw [if_pos (htest.mpr hc1)]
         obtain ⟨hcfg, hdone⟩ := landed_nil hland
-        refine ⟨cfg.1, .obj [], ?_, hdone, GoodAt.obj (GoodMem.nil _)⟩
+        refine Or.inl ⟨cfg.1, .obj [], ?_, hdone, GoodAt.obj (GoodMem.nil _)⟩
         rw [hpi cfg hop, hcfg]
         rfl
       · rw [if_neg (fun h => hc1 (htest.mp h))]
@@ -352,7 +419,7 @@ theorem parseImpl_spec {W : Nat} {bs pad : List Nat} (ctx : Ctx W bs pad) (hnum 
           obtain ⟨k, s', ⟨cfg0, hcfg0, hreach⟩, hfin, hk⟩ := hE
           injection hcfg0 with hcfg0
           subst hcfg0
-          exact ⟨s', by rw [hpi _ hop]; exact hreach.run _ (by omega), hfin⟩
+          exact Or.inl ⟨s', by rw [hpi _ hop]; exact hreach.run _ (by omega), hfin⟩
         | ok x =>
           obtain ⟨xs, e⟩ := x
           rw [hres] at hE
@@ -360,7 +427,7 @@ theorem parseImpl_spec {W : Nat} {bs pad : List Nat} (ctx : Ctx W bs pad) (hnum 
           rcases hE with ⟨k, cfg, node, hreach, hland, hgood, hpres3, hk, he⟩ | ⟨_, hncap⟩
           · obtain ⟨hcfg, hdone⟩ := landed_nil hland
             rw [hcfg] at hreach
-            refine ⟨cfg.1, node, by rw [hpi _ hop]; exact hreach.run _ (by omega), hdone, ?_⟩
+            refine Or.inl ⟨cfg.1, node, by rw [hpi _ hop]; exact hreach.run _ (by omega), hdone, ?_⟩
             simpa using hgood
           · refine absurd ?_ hncap
             have hnp0 := hat.inv.st.1.np
@@ -389,7 +456,7 @@ theorem parseImpl_spec {W : Nat} {bs pad : List Nat} (ctx : Ctx W bs pad) (hnum 
     exact rootGoal_impl hsk h5B h7B (root_num ctx hnum hat hn)
   · simp only [beq_iff_eq, h22, h5B, h7B, h74, h66, h6E, if_false, specNumTest, hn, Bool.false_eq_true]
     refine rootGoal_impl hsk h5B h7B ?_
-    refine ⟨{ s1 with err := kParseErrorInvalidChar }, ?_, hat.inv.errFull rfl rfl rfl rfl⟩
+    refine Or.inl ⟨{ s1 with err := kParseErrorInvalidChar }, ?_, hat.inv.errFull rfl rfl rfl rfl⟩
     rw [pp_eq hat]
     simp only [hn, Bool.false_eq_true, if_false, h22, h66, h74, h6E]
 
@@ -427,8 +494,68 @@ theorem trailing_spec {bs pad : List Nat} {B : Buf} {pos0 : Nat}
 theorem ErrFinal.setPos {bs : List Nat} {s : PState} (h : ErrFinal bs s) (p : Nat) :
     ErrFinal bs { s with pos := p } := ⟨h.err, h.len, h.blen, h.cap, h.st⟩
 
+theorem parserParse_eq {W : Nat} {bs pad : List Nat} {raw : List (Option Node)} {s1 : PState}
+    (h1 : parseImpl W (initState bs pad raw) = .ok s1) :
+    parserParse W (paddedBuf bs pad) bs.length (Sax.setUp bs.length raw) =
+      (match (if s1.err = kErrorNone then
+          match hasTrailingChars s1.buf s1.len (s1.len + 1) s1.pos with
+          | .error e => .error e
+          | .ok (pos, true) => .ok { s1 with pos := pos, err := kParseErrorInvalidChar }
+          | .ok (pos, false) => .ok { s1 with pos := pos }
+        else .ok s1 : Except Fault PState) with
+      | .error e => .error e
+      | .ok s => .ok (if s.pos > s.len then { s with pos := s.len } else s)) := by
+  unfold parserParse
+  unfold initState at h1
+  simp only [h1]
+  rfl
+
+/-- `Parser::Parse` after `parseImpl` has failed: the error stays, the offset is clamped -/
+theorem parse_errFinal {W : Nat} {bs pad : List Nat} {raw : List (Option Node)} {s1 : PState}
+    (h1 : parseImpl W (initState bs pad raw) = .ok s1) (hfin : ErrFinal bs s1) :
+    ∃ s', parserParse W (paddedBuf bs pad) bs.length (Sax.setUp bs.length raw) = .ok s' ∧
+      ErrFinal bs s' ∧ s'.pos ≤ bs.length := by
+  have hne : ¬ s1.err = kErrorNone := by
+    have := hfin.err
+    simp only [kErrorNone]; omega
+  refine ⟨if s1.pos > s1.len then { s1 with pos := s1.len } else s1, ?_, ?_, ?_⟩
+  · rw [parserParse_eq h1, if_neg hne]
+  · split
+    · exact hfin.setPos _
+    · exact hfin
+  · split
+    · simp only [hfin.len]; omega
+    · rw [← hfin.len]; omega
+
+/-- `Parser::Parse` after a finished root value that is followed by a non-whitespace byte inside the input -/
+theorem parse_trailing {W : Nat} {bs pad : List Nat} {raw : List (Option Node)} {s1 : PState} {node : Node}
+    {next : Nat} (h1 : parseImpl W (initState bs pad raw) = .ok s1) (hdone : RootDone bs pad s1 node next)
+    (hlt : Json.skipWs bs bs.length next < bs.length) :
+    ∃ s', parserParse W (paddedBuf bs pad) bs.length (Sax.setUp bs.length raw) = .ok s' ∧
+      ErrFinal bs s' ∧ s'.pos ≤ bs.length := by
+  obtain ⟨t1, t2, t3, t4⟩ := skipWs_spec bs bs.length next (by omega) hdone.le
+  have htr := trailing_spec (pad := pad) (B := s1.buf) (pos0 := s1.pos) (fun j hj => hdone.b.get hj)
+    (bs.length + 1) s1.pos (Json.skipWs bs bs.length next) (Nat.le_refl _) (by rw [hdone.pos]; exact t1) t2
+    (fun j hj hjq => t3 j (by rw [← hdone.pos]; exact hj) hjq) t4 (by omega)
+  have herr : s1.err = kErrorNone := hdone.err
+  refine ⟨{ s1 with pos := Json.skipWs bs bs.length next, err := kParseErrorInvalidChar }, ?_,
+    ⟨Or.inl rfl, hdone.b.len, hdone.b.blen, hdone.cap, [node], hdone.st, by
+      simp only [allocsList, hdone.led]; omega⟩, by simp only; omega⟩
+  rw [parserParse_eq h1, if_pos herr, hdone.b.len, htr]
+  simp only [hlt, decide_true, gt_iff_lt]
+  rw [if_neg (by omega)]
+
+theorem parse_rootDoomed {W : Nat} {bs pad : List Nat} {raw : List (Option Node)}
+    (h : RootDoomed bs pad (parseImpl W (initState bs pad raw))) :
+    ∃ s', parserParse W (paddedBuf bs pad) bs.length (Sax.setUp bs.length raw) = .ok s' ∧
+      ErrFinal bs s' ∧ s'.pos ≤ bs.length := by
+  rcases h with ⟨s1, node, next, h1, hdone, hdoom⟩ | ⟨s1, h1, hfin⟩
+  · obtain ⟨d, hdd, hsp, _⟩ := hdoom.notWs
+    exact parse_trailing h1 hdone (by rw [skipWs_fix hdd hsp]; exact hdoom.lt)
+  · exact parse_errFinal h1 hfin
+
 /-- `Parser::Parse` against `Spec.Json.parse` -/
-theorem parserParse_spec {W : Nat} {bs pad : List Nat} (ctx : Ctx W bs pad) (hnum : NumberCorrectOn bs)
+theorem parserParse_spec {W : Nat} {bs pad : List Nat} (ctx : Ctx W bs pad) (hnum : NumberOK bs)
     {raw : List (Option Node)} (hraw : raw.length = setUpCap bs.length) :
     match Json.parse bs with
     | .ok v => ∃ s' node, parserParse W (paddedBuf bs pad) bs.length (Sax.setUp bs.length raw) = .ok s' ∧
@@ -437,63 +564,37 @@ theorem parserParse_spec {W : Nat} {bs pad : List Nat} (ctx : Ctx W bs pad) (hnu
     | .error _ => ∃ s', parserParse W (paddedBuf bs pad) bs.length (Sax.setUp bs.length raw) = .ok s' ∧
         ErrFinal bs s' ∧ s'.pos ≤ bs.length := by
   have hI := parseImpl_spec ctx hnum hraw
-  have hpp : ∀ s1, parseImpl W (initState bs pad raw) = .ok s1 →
-      parserParse W (paddedBuf bs pad) bs.length (Sax.setUp bs.length raw) =
-        (match (if s1.err = kErrorNone then
-            match hasTrailingChars s1.buf s1.len (s1.len + 1) s1.pos with
-            | .error e => .error e
-            | .ok (pos, true) => .ok { s1 with pos := pos, err := kParseErrorInvalidChar }
-            | .ok (pos, false) => .ok { s1 with pos := pos }
-          else .ok s1 : Except Fault PState) with
-        | .error e => .error e
-        | .ok s => .ok (if s.pos > s.len then { s with pos := s.len } else s)) := by
-    intro s1 h1
-    unfold parserParse
-    unfold initState at h1
-    simp only [h1]
-    rfl
   unfold Json.parse
   simp only
   cases hv : Json.parseValue bs (2 * bs.length + 2) (Json.skipWs bs bs.length 0) with
   | error e =>
     rw [hv] at hI
-    obtain ⟨s1, h1, hfin⟩ := hI
-    have hne : ¬ s1.err = kErrorNone := by
-      have := hfin.err
-      simp only [kErrorNone]; omega
     simp only
-    refine ⟨if s1.pos > s1.len then { s1 with pos := s1.len } else s1, ?_, ?_, ?_⟩
-    · rw [hpp s1 h1, if_neg hne]
-    · split
-      · exact hfin.setPos _
-      · exact hfin
-    · split
-      · simp only [hfin.len]; omega
-      · rw [← hfin.len]; omega
+    rcases hI with ⟨s1, h1, hfin⟩ | hd
+    · exact parse_errFinal h1 hfin
+    · exact parse_rootDoomed hd
   | ok x =>
     obtain ⟨v, next⟩ := x
     rw [hv] at hI
-    obtain ⟨s1, node, h1, hdone, hgood⟩ := hI
     simp only
-    obtain ⟨t1, t2, t3, t4⟩ := skipWs_spec bs bs.length next (by omega) hdone.le
-    have htr := trailing_spec (pad := pad) (B := s1.buf) (pos0 := s1.pos) (fun j hj => hdone.b.get hj)
-      (bs.length + 1) s1.pos (Json.skipWs bs bs.length next) (Nat.le_refl _) (by rw [hdone.pos]; exact t1) t2
-      (fun j hj hjq => t3 j (by rw [← hdone.pos]; exact hj) hjq) t4 (by omega)
-    have herr : s1.err = kErrorNone := hdone.err
-    by_cases hend : Json.skipWs bs bs.length next = bs.length
-    · rw [if_pos (by rw [hend]; simp)]
-      refine ⟨{ s1 with pos := bs.length }, node, ?_, hdone.err, rfl, hdone.st, hdone.led, hdone.cap, hdone.b.blen,
-        hgood _ rfl⟩
-      rw [hpp s1 h1, if_pos herr, hdone.b.len, htr, hend]
-      simp only [Nat.lt_irrefl, decide_false, gt_iff_lt, if_false]
-    · rw [if_neg (by simp only [beq_iff_eq]; exact hend)]
-      have hlt : Json.skipWs bs bs.length next < bs.length := by omega
-      refine ⟨{ s1 with pos := Json.skipWs bs bs.length next, err := kParseErrorInvalidChar }, ?_,
-        ⟨Or.inl rfl, hdone.b.len, hdone.b.blen, hdone.cap, [node], hdone.st, by
-          simp only [allocsList, hdone.led]; omega⟩, by simp only; omega⟩
-      rw [hpp s1 h1, if_pos herr, hdone.b.len, htr]
-      simp only [hlt, decide_true, gt_iff_lt]
-      rw [if_neg (by omega)]
+    rcases hI with ⟨s1, node, h1, hdone, hgood⟩ | ⟨hdoom, hd⟩
+    · obtain ⟨t1, t2, t3, t4⟩ := skipWs_spec bs bs.length next (by omega) hdone.le
+      by_cases hend : Json.skipWs bs bs.length next = bs.length
+      · have htr := trailing_spec (pad := pad) (B := s1.buf) (pos0 := s1.pos) (fun j hj => hdone.b.get hj)
+          (bs.length + 1) s1.pos (Json.skipWs bs bs.length next) (Nat.le_refl _) (by rw [hdone.pos]; exact t1) t2
+          (fun j hj hjq => t3 j (by rw [← hdone.pos]; exact hj) hjq) t4 (by omega)
+        have herr : s1.err = kErrorNone := hdone.err
+        rw [if_pos (by rw [hend]; simp)]
+        refine ⟨{ s1 with pos := bs.length }, node, ?_, hdone.err, rfl, hdone.st, hdone.led, hdone.cap,
+          hdone.b.blen, hgood _ rfl⟩
+        rw [parserParse_eq h1, if_pos herr, hdone.b.len, htr, hend]
+        simp only [Nat.lt_irrefl, decide_false, gt_iff_lt, if_false]
+      · rw [if_neg (by simp only [beq_iff_eq]; exact hend)]
+        exact parse_trailing h1 hdone (by omega)
+    · obtain ⟨d, hdd, hsp, _⟩ := hdoom.notWs
+      have hlt := hdoom.lt
+      rw [if_neg (by simp only [beq_iff_eq, skipWs_fix hdd hsp]; omega)]
+      exact parse_rootDoomed hd
 
 /-! ## `GenericDocument::Parse` -/
 
@@ -507,7 +608,7 @@ theorem balanced_destroy {d : Doc} (h : Balanced d) : d.destroyDom.mallocs = d.d
   simp only [Doc.destroyDom]
   omega
 
-theorem parseDoc_spec {W : Nat} {bs pad : List Nat} (ctx : Ctx W bs pad) (hnum : NumberCorrectOn bs)
+theorem parseDoc_spec {W : Nat} {bs pad : List Nat} (ctx : Ctx W bs pad) (hnum : NumberOK bs)
     {raw : List (Option Node)} (hraw : raw.length = setUpCap bs.length) (d : Doc) :
     match Json.parse bs with
     | .ok v => ∃ r, parseDoc W pad raw d bs = .ok r ∧ r.err = 0 ∧ r.off = bs.length ∧ r.doc.value = some v ∧
@@ -576,6 +677,10 @@ theorem numberCorrectOn_of_no_number (bs : List Nat) (h : ∀ c ∈ bs, isNumSta
   intro start c _ hc hn
   rw [h c (List.mem_of_getElem? hc)] at hn
   cases hn
+
+/-- an input without `-` and digits satisfies `NumberOK` -/
+theorem numberOK_of_no_number (bs : List Nat) (h : ∀ c ∈ bs, isNumStart c = false) : NumberOK bs :=
+  numberOK_of_correct (numberCorrectOn_of_no_number bs h)
 
 /-- error code and offset of a run of the model (`none` = the checked model faulted) -/
 def errOff (r : Except Fault Result) : Option (Nat × Nat) :=
